@@ -28,7 +28,7 @@ instance exactQ : Scalar (Option Rat) where
   isNaN := Option.isNone
   nan := none
   ofDec := fun m k => if k = 0 then some (m : Rat) else some ((m : Rat) / ((10 ^ k : Nat) : Rat))
-  big := some ((10 ^ 300 : Nat) : Rat)
+  inf := none
 
 theorem exactQ_laws : Laws (Option Rat) where
   add_comm := by
